@@ -135,7 +135,7 @@ var plans = []Plan{
 	{
 		ID: "C02", Level: "exploration",
 		Rule: "state machine weighted to sequences of redemption attempts on live codes: foreign confidential/public client, wrong secret, redirect_uri absent/equal/different/re-encoded (trailing slash, host case, %-encoding, default port, extra query), smuggled scope/audience parameters, code ages on both sides of the (short) code lifetime, followed by the rightful attempt; Recorder asserts that a refused attempt creates no token record; per-step introspection compares every token's client/subject/scopes/audience with what consent granted. Non-trivial: a rightful redemption after >=1 refused attempt, or a refused attempt in a history with smuggled parameters.",
-		Jobs: []Job{{Test: "TestC02_CodeBinding", Shards: [2]int{16, 16}, Checks: [2]int{120, 3000}, Steps: [2]int{30, 60}, Timeout: [2]int{600, 3000}}},
+		Jobs: []Job{{Test: "TestC02_CodeBinding", Shards: [2]int{16, 16}, Checks: [2]int{250, 4000}, Steps: [2]int{30, 60}, Timeout: [2]int{600, 3000}}},
 	},
 	{
 		ID: "C03", Level: "exploration",
@@ -146,42 +146,42 @@ var plans = []Plan{
 	{
 		ID: "C01", Level: "exploration",
 		Rule: "rapid state machine over authorize/redeem/refresh/revoke/password/advance on a real in-process provider (reference MemoryStore and a contract-following transactional store, HMAC and JWT access tokens, three refresh-scope configurations, plain and hybrid codes, three clients); after every step every token ever received is introspected and compared with a reference model transcribed from the statement. Non-trivial: the history replays a successfully redeemed code (single refusal reason); distinct by the sequence of (action, refusal-reason) kinds.",
-		Jobs: []Job{{Test: "TestC01_CodeSingleUse", Shards: [2]int{16, 16}, Checks: [2]int{120, 3000}, Steps: [2]int{30, 60}, Timeout: [2]int{600, 3000}}},
+		Jobs: []Job{{Test: "TestC01_CodeSingleUse", Shards: [2]int{16, 16}, Checks: [2]int{250, 4000}, Steps: [2]int{30, 60}, Timeout: [2]int{600, 3000}}},
 	},
 	{
 		ID: "C04", Level: "exploration",
 		Rule: "same state machine weighted to refresh chains (grants from code, hybrid, password and device origins), replays of any earlier generation, revocations in between, several families alive; per-step introspection of every token against the model. Non-trivial: chain depth >= 2 and a replay of a used refresh token; distinct by the (action, refusal-reason) sequence.",
-		Jobs: []Job{{Test: "TestC04_RefreshRotation", Shards: [2]int{16, 16}, Checks: [2]int{120, 3000}, Steps: [2]int{30, 70}, Timeout: [2]int{600, 3000}}},
+		Jobs: []Job{{Test: "TestC04_RefreshRotation", Shards: [2]int{16, 16}, Checks: [2]int{250, 4000}, Steps: [2]int{30, 70}, Timeout: [2]int{600, 3000}}},
 	},
 	{
 		ID: "C05", Level: "exploration",
 		Rule: "state machine with refresh requests that smuggle scope/audience, foreign presenters, and post-issuance edits of the client registration (scope, audience, refresh_token grant removed/restored), under the three refresh-scope configurations; oracle: issuance rule for refresh tokens per flow, refresh honoured only while the model says the client still covers the grant, new tokens carry the original grant. Non-trivial: a refresh that differs from the grant (smuggled parameter, edited client or foreign presenter).",
-		Jobs: []Job{{Test: "TestC05_RefreshConfinement", Shards: [2]int{16, 16}, Checks: [2]int{120, 3000}, Steps: [2]int{30, 60}, Timeout: [2]int{600, 3000}}},
+		Jobs: []Job{{Test: "TestC05_RefreshConfinement", Shards: [2]int{16, 16}, Checks: [2]int{250, 4000}, Steps: [2]int{30, 60}, Timeout: [2]int{600, 3000}}},
 	},
 	{
 		ID: "C08", Level: "exploration",
 		Rule: "state machine weighted to revocation at every history position: token kind (incl. the hybrid authorization-endpoint access token), hint right/wrong/garbage/absent, caller owner/foreign/wrong secret, tokens live/rotated/revoked/killed; per-step introspection of all tokens. Non-trivial: revocation of a live token that has a live sibling, or a refused / no-op revocation in a history with refreshes; distinct by the (action, caller, state) sequence.",
-		Jobs: []Job{{Test: "TestC08_Revocation", Shards: [2]int{16, 16}, Checks: [2]int{120, 3000}, Steps: [2]int{30, 60}, Timeout: [2]int{600, 3000}}},
+		Jobs: []Job{{Test: "TestC08_Revocation", Shards: [2]int{16, 16}, Checks: [2]int{250, 4000}, Steps: [2]int{30, 60}, Timeout: [2]int{600, 3000}}},
 	},
 	{
 		ID: "C09", Level: "exploration",
 		Rule: "the per-step invariant itself (IntrospectToken on every token of the model: active flag, kind, client, subject, scopes, audience, expiry) plus the introspection endpoint with every caller credential (basic right/wrong/public, bearer live/dead/identical/refresh, none), hints, required-scope lists and one-edit token mutants, over arbitrary histories with short lifetimes. Non-trivial: an endpoint query in a history that contains a state change (refresh, revocation, replay); distinct by the action sequence incl. caller kind and expected state.",
-		Jobs: []Job{{Test: "TestC09_Introspection", Shards: [2]int{16, 16}, Checks: [2]int{120, 3000}, Steps: [2]int{35, 70}, Timeout: [2]int{600, 3000}}},
+		Jobs: []Job{{Test: "TestC09_Introspection", Shards: [2]int{16, 16}, Checks: [2]int{250, 4000}, Steps: [2]int{35, 70}, Timeout: [2]int{600, 3000}}},
 	},
 	{
 		ID: "C16", Level: "exploration",
 		Rule: "state machine over device authorization, user decision (accept with full/partial consent, reject, none), polling by the right or a wrong client, replay after success and time advance, on the reference store and on the contract-following store. Non-trivial: a replay after success, or a decision followed by a refused poll; distinct by the (action, refusal-reason) sequence.",
-		Jobs: []Job{{Test: "TestC16_DeviceHistories", Shards: [2]int{16, 16}, Checks: [2]int{150, 4000}, Steps: [2]int{30, 60}, Timeout: [2]int{600, 3000}}},
+		Jobs: []Job{{Test: "TestC16_DeviceHistories", Shards: [2]int{16, 16}, Checks: [2]int{300, 5000}, Steps: [2]int{30, 60}, Timeout: [2]int{600, 3000}}},
 	},
 	{
 		ID: "C17", Level: "exploration",
 		Rule: "state machine over push / authorize-with-request_uri (right client, wrong client, twice, after expiry, with conflicting query parameters) and redemption of the resulting codes. Non-trivial: a use that is refused, or a successful use with conflicting query parameters; distinct by the (action, refusal-reason) sequence.",
-		Jobs: []Job{{Test: "TestC17_PARHistories", Shards: [2]int{16, 16}, Checks: [2]int{150, 4000}, Steps: [2]int{30, 60}, Timeout: [2]int{600, 3000}}},
+		Jobs: []Job{{Test: "TestC17_PARHistories", Shards: [2]int{16, 16}, Checks: [2]int{300, 5000}, Steps: [2]int{30, 60}, Timeout: [2]int{600, 3000}}},
 	},
 	{
 		ID: "C07", Level: "exploration",
 		Rule: "state machine with short generated lifetimes (code, access, refresh incl. -1, device, PAR) and time advances drawn from seconds..days and from just before / just past the next expiry known to the model; every credential is presented at its endpoint and introspected on both sides of the expiry advertised in the response. Non-trivial: a credential refused or reported inactive because it expired inside the history.",
-		Jobs: []Job{{Test: "TestC07_ExpiryHistories", Shards: [2]int{16, 16}, Checks: [2]int{120, 3000}, Steps: [2]int{35, 70}, Timeout: [2]int{600, 3000}}},
+		Jobs: []Job{{Test: "TestC07_ExpiryHistories", Shards: [2]int{16, 16}, Checks: [2]int{250, 4000}, Steps: [2]int{35, 70}, Timeout: [2]int{600, 3000}}},
 	},
 
 	{
